@@ -13,7 +13,7 @@ PROFILE = dict(
     nontrivial_probes=['purity_checks', 'status_dryrun_run_triples', 'filtered_status_checks'],
     sizes=[0, 1, 2, 3, 3, 4, 4, 5, 6, 8],
     backends=["slurm", "slurm", "sge", "lsf", "local"],
-    weights=dict(triple=3, faulted=0.5, pool_restart=0.2, status=1, status_filtered=3, dry_run=1.5, run=1, start=2, finish=2, sched_cancel=0.7,
+    weights=dict(status_concurrent=0.5, triple=3, faulted=0.5, pool_restart=0.2, status=1, status_filtered=3, dry_run=1.5, run=1, start=2, finish=2, sched_cancel=0.7,
                  purge=0.5, acct_flush=0.5, modify_source=0.7, delete_output=0.7, edit_spec=0.5, advance=0.5, rename=0.5, remove=0.3,
                  add=0.3),
     p_nested=0.1, p_job_ok=0.5, spec_variety=True, p_hashing=0.5, p_huge=0.01,
